@@ -4,7 +4,8 @@
    every exporter under every option combination and render the structured
    outputs.  [fx = true]: the code after the repairs D36 / D37. *)
 From Coq Require Import List ZArith Bool Arith.
-From NT Require Import Sx Rose Export.
+From NT Require Import Sx Rose.
+From NT Require Export Export.   (* the case files name MO, TitleName, ... *)
 Import ListNotations.
 
 Definition Tz (id : Z) (i : info) (ch : list rt) : rt := T (Z.to_nat id) i ch.
@@ -20,11 +21,21 @@ Definition obs_start (root s : rt) (isroot : bool) : sx :=
       if isroot then L [sx_rdf (rdf_of_tree true tn s)]
       else L [sx_rdf (rdf_of_node true true s); sx_rdf (rdf_of_node true false s)] ].
 
-Definition run17 (c : rt * list Z) : sx :=
-  let root := fst c in
-  L (map (fun z =>
-            if Z.eqb z 0 then obs_start root root true
-            else match find (fun t => Nat.eqb (rid t) (Z.to_nat z)) (flat_map pre (rch root)) with
-                 | Some t => obs_start root t false
-                 | None => A (-1)%Z
-                 end) (snd c)).
+Definition find_start (root : rt) (z : Z) : option rt :=
+  if Z.eqb z 0 then Some root
+  else find (fun t => Nat.eqb (rid t) (Z.to_nat z)) (flat_map pre (rch root)).
+
+(* a case: the tree, the start nodes for the structured exports, and whole
+   Mermaid charts requested as (start, options) *)
+Definition run17 (c : rt * list Z * list (Z * mopts)) : sx :=
+  let root := fst (fst c) in
+  L [ L (map (fun z =>
+                match find_start root z with
+                | Some t => obs_start root t (Z.eqb z 0)
+                | None => A (-1)%Z
+                end) (snd (fst c)));
+      L (map (fun zo =>
+                match find_start root (fst zo) with
+                | Some t => sx_chart (mer_chart (snd zo) t)
+                | None => A (-2)%Z
+                end) (snd c)) ].
